@@ -194,6 +194,62 @@ where
     }
 }
 
+/// The library's own lazy iterators as the source of its own bulk constructors: the items of
+/// one algebra iterator are cloned into a `Set` of `C` slots through `collect` and through
+/// `extend`. Whatever a constructor takes from the source's `size_hint`, the result must stay
+/// inside its capacity (and, with a lawful `==`, hold exactly the mathematical result or reject
+/// it when it does not fit).
+fn collect_into<'a, KD: Kind, I, const C: usize>(cx: &mut Ctx, liar: bool, name: &str, mk: impl Fn() -> I, expect: &[u8])
+where
+    I: Iterator<Item = &'a KD::K>,
+    KD::K: 'a,
+{
+    let mem = P17.and(Prop::C08);
+    for via in 0..2 {
+        let how = if via == 0 { "collect" } else { "extend" };
+        let mut t: Box<Caged<Set<KD::K, C>>> = Box::new(Caged::new(Set::new()));
+        let r = if via == 0 {
+            match lib::<KD, _>(cx, || mk().cloned().collect::<Set<KD::K, C>>()) {
+                Ok(s) => {
+                    *t = Caged::new(s);
+                    Ok(())
+                }
+                Err(p) => Err(p),
+            }
+        } else {
+            let tm = &mut t.m;
+            lib::<KD, _>(cx, || tm.extend(mk().cloned()))
+        };
+        cx.bump(S::bulk_calls);
+        cx.bump(S::bulk_lib_sources);
+        let (len, cap) = (t.m.len(), t.m.capacity());
+        cx.chk(mem, len <= cap && cap == C, "len-vs-capacity", || format!("{how} of {name} into a set of {C} slots: len()={len}, capacity()={cap}"));
+        cx.chk(mem, t.intact(), "canary", || format!("{how} of {name} into a set of {C} slots wrote outside the set"));
+        if len > cap || !t.intact() {
+            // nothing about this value can be trusted any more
+            std::mem::forget(t);
+            return;
+        }
+        let obs = tl::quiet(|| t.m.iter().map(|k| (KD::kraw(k), KD::klive(k))).collect::<Vec<_>>()).unwrap_or_default();
+        cx.chk(mem, obs.len() == len && obs.iter().all(|o| o.1), "len-vs-iter", || format!("{how} of {name} into a set of {C} slots: len()={len} but iteration yields {} live elements", obs.iter().filter(|o| o.1).count()));
+        if !liar {
+            match &r {
+                Ok(()) => {
+                    let mut got: Vec<u8> = obs.iter().map(|o| o.0).collect();
+                    got.sort_unstable();
+                    cx.chk(P08.and(Prop::C16), got == expect, "collected-result", || format!("{how} of {name} into a set of {C} slots holds {got:?}, the mathematical result is {expect:?}"));
+                }
+                Err(p) if *p != Pk::Injected => {
+                    cx.bump(S::lib_panics);
+                    cx.chk(P08.and(Prop::C16), expect.len() > C, "spurious-overflow", || format!("{how} of {name} ({} elements) into a set of {C} slots panicked: {}", expect.len(), p.name()));
+                }
+                Err(_) => {}
+            }
+        }
+        let _ = tl::lib(move || drop(t));
+    }
+}
+
 pub fn run<KD: Kind, const N: usize, const M: usize>(case: &Case, cx: &mut Ctx) {
     tl::ledger_reset();
     tl::liar_off();
@@ -346,6 +402,19 @@ pub fn run<KD: Kind, const N: usize, const M: usize>(case: &Case, cx: &mut Ctx) 
         for (name, got, want) in preds.iter() {
             cx.chk(P08, *got == Ok(*want), "predicate", || format!("{name} gives {got:?}, the mathematical truth value is {want}"));
         }
+    }
+    // the lazy iterators as sources of collect / extend into small sets
+    cx.cur_op = "collect";
+    if N + M > 0 && (liar || cx.armed != Prop::C19) {
+        collect_into::<KD, _, 1>(cx, liar, "union", || lc.m.union(&rc.m), &uni);
+        collect_into::<KD, _, 2>(cx, liar, "union", || lc.m.union(&rc.m), &uni);
+        collect_into::<KD, _, 1>(cx, liar, "intersection", || lc.m.intersection(&rc.m), &inter);
+        collect_into::<KD, _, 2>(cx, liar, "intersection", || lc.m.intersection(&rc.m), &inter);
+        collect_into::<KD, _, 3>(cx, liar, "intersection", || lc.m.intersection(&rc.m), &inter);
+        collect_into::<KD, _, 1>(cx, liar, "difference", || lc.m.difference(&rc.m), &diff);
+        collect_into::<KD, _, 2>(cx, liar, "difference", || lc.m.difference(&rc.m), &diff);
+        collect_into::<KD, _, 2>(cx, liar, "symmetric_difference", || lc.m.symmetric_difference(&rc.m), &sym);
+        collect_into::<KD, _, 3>(cx, liar, "symmetric_difference", || lc.m.symmetric_difference(&rc.m), &sym);
     }
     // equality (C14 for sets)
     cx.cur_op = "eq";
